@@ -1782,7 +1782,11 @@ def _format_t(path, root=T):
     while i < len(path):
         op, arg = path[i], path[i + 1]
         if op == '.':
-            prepr.append('.' + arg)
+            if arg.startswith('__'):
+                # only T.__('name') can write this step
+                prepr.append('.__(%r)' % arg[2:])
+            else:
+                prepr.append('.' + arg)
         elif op == '[':
             if type(arg) is tuple and arg:
                 index = ", ".join([_format_slice(x) for x in arg])
